@@ -58,6 +58,15 @@ def opsLexer (op : String) (j : Json) : Option (Except String Json) :=
               Json.bool ((refSyntaxOk s).getD true)])
           else throw "pair expected"
         pure (Json.arr out.toArray)
+  | "lexer.pinned" => some do
+      -- classification under the pinned lexicon: [[text, type], …] → [bool, …]
+      let items ← getArr j "items"
+      let out ← items.toList.mapM fun it => do
+        let p ← it.getArr?
+        if h : p.size = 2 then
+          pure (Json.bool (dynamicPinned (← p[0].getStr?).toList (← p[1].getStr?).toList))
+        else throw "pair expected"
+      pure (Json.arr out.toArray)
   | "lexer.refsyntax" => some do
       let s ← getStr j "s"
       match refSyntaxOk s with
